@@ -335,14 +335,10 @@ where
         let end = self.data.build_in_message(contents, data_start, name)?;
 
         // Write out the size field.
+        // Data that is too large for the size field cannot be represented
+        // in the message at all.
         let size = end - data_start;
-        let size = S::try_from(size).unwrap_or_else(|_| {
-            panic!(
-                "`data.len()` ({} bytes) overflows {}",
-                size,
-                core::any::type_name::<S>(),
-            )
-        });
+        let size = S::try_from(size).map_err(|_| TruncationError)?;
         contents[start..data_start].copy_from_slice(size.as_bytes());
 
         Ok(end)
@@ -372,14 +368,9 @@ where
         let rest = self.data.build_bytes(data_bytes)?;
 
         // Write out the size field.
+        // Data that is too large for the size field cannot be represented.
         let size = data_bytes_len - rest.len();
-        let size = S::try_from(size).unwrap_or_else(|_| {
-            panic!(
-                "`data.len()` ({} bytes) overflows {}",
-                size,
-                core::any::type_name::<S>(),
-            )
-        });
+        let size = S::try_from(size).map_err(|_| TruncationError)?;
         size_bytes.copy_from_slice(size.as_bytes());
 
         Ok(rest)
